@@ -235,7 +235,7 @@ impl WmoWriter {
     ) -> Result<()> {
         let header = ChunkHeader {
             id: chunks::MOHD,
-            size: 60, // Fixed size for header (without padding)
+            size: 64, // SMOHeader is 64 bytes in every supported version
         };
 
         header.write(writer)?;
@@ -267,9 +267,10 @@ impl WmoWriter {
             flags &= !WmoFlags::HAS_SKYBOX;
         }
 
-        writer.write_u32_le(flags.bits())?;
+        // +0x20: wmoID (WMOAreaTable key); WmoRoot does not carry one
+        writer.write_u32_le(0)?;
 
-        // Bounding box
+        // +0x24: bounding box
         writer.write_f32_le(wmo.bounding_box.min.x)?;
         writer.write_f32_le(wmo.bounding_box.min.y)?;
         writer.write_f32_le(wmo.bounding_box.min.z)?;
@@ -277,6 +278,10 @@ impl WmoWriter {
         writer.write_f32_le(wmo.bounding_box.max.x)?;
         writer.write_f32_le(wmo.bounding_box.max.y)?;
         writer.write_f32_le(wmo.bounding_box.max.z)?;
+
+        // +0x3C: flags (u16), +0x3E: numLod (u16)
+        writer.write_u16_le(flags.bits() as u16)?;
+        writer.write_u16_le(0)?;
 
         Ok(())
     }
